@@ -187,7 +187,7 @@ PROPS = {
 
 
 
-def world(quick=400, thorough=1500):
+def world(quick=1000, thorough=1500):
     return {"engine": "world", "args": {},
             "quick": {"cases": quick, "max-ops": 40, "conc-rounds": 4, "conc-threads": 6, "conc-ops": 2000},
             "thorough": {"cases": thorough, "max-ops": 400, "conc-rounds": 20, "conc-threads": 12, "conc-ops": 20000},
@@ -195,13 +195,13 @@ def world(quick=400, thorough=1500):
 
 
 PROPS["C08"] = {
-    "statement": "C08.every_history / step_preserves_inv (each cell is free, shared by exactly its n live shared guards, or exclusive with exactly one live guard, after every legal history), C08.outcome_spec (None iff absent, borrow panic iff an incompatible guard is alive, a guard otherwise), C08.panic_frame (+ unwinding of composite fetches), C08.drop_exact",
+    "statement": "C08.every_history / step_preserves_inv (each cell is free, shared by exactly its n live shared guards, or exclusive with exactly one live guard, after every legal history — histories include closures that take guards and panic, and &mut calls that meet a panic of user code), C08.outcome_spec (None iff absent, borrow panic iff an incompatible guard is alive, a guard otherwise), C08.panic_frame (+ unwinding of composite fetches), C08.drop_exact, C08.scope_frame / scope_restores / unwind_eq_return (a closure that takes guards of any kind and returns, panics or is refused a fetch half-way leaves every cell and every outer guard as they were), C08.entry_guard_unwinds, C08.exec_closure_panics",
     "engines": [world()],
     "aspects": ["outcome", "state"],
     "assumptions": [CELL + "; each cell operation (try_borrow, borrow_mut, guard drop) is one atomic step, so a many-thread history is treated as an interleaving of the modelled operations (linearizability of AtomicRefCell is assumed, not proved; the stress part of the engine only checks that no two incompatible guards ever coexist)", TYPES],
 }
 PROPS["C09"] = {
-    "statement": "C09.refines_state / refines_out (every operation commutes with abs : World -> (ResId -> Option Token) and answers what the map answers), C09.typed_linear_invariant (type tag = key type; conservation of values), C09.mismatch_panics, C09.linear / dropped_exactly_once",
+    "statement": "C09.refines_state / refines_out (every operation commutes with abs : World -> (ResId -> Option Token) and answers what the map answers), C09.typed_linear_invariant (type tag = key type; conservation of values), C09.mismatch_panics, C09.linear / dropped_exactly_once — all over histories that include values whose Drop panics and closures that panic; C09.insert_replaces_when_drop_panics, or_insert_occupied_drop_panics, or_insert_with_closure_panics, entry_stores_before_caller_panics, dropReturned_keeps_linear, dropWorld_panic_at_most_once (the interrupted drop of the world drops or leaks each value, never twice)",
     "engines": [world()],
     "aspects": ["outcome", "state", "ghost"],
     "assumptions": [TYPES, "the unchecked downcasts (Fetch::deref, get_mut, remove) are modelled as 'type tag equals key type => the cast is right'"],
@@ -215,8 +215,8 @@ TEXT = {
     "C05": "Proof: every trace of the parallel plan has the effect of the unique sequential trace, provided events of non-conflicting systems commute - which is proved for the harness's order-sensitive systems (C05_harness_commutes); repetition by induction. Tied by comparing real parallel dispatches with a sequentially dispatched twin and with the model's evaluation, with and without the parallel feature.",
     "C06": "Proof by structural induction over the system-data type tree: fetch borrows exactly the reported present resources (multisets), fails iff a required resource is absent or a borrow conflicts and then releases everything, drop releases, reads/writes/setup are concatenation/composition over members. Tied by 229 real Rust types (all tuple arities 1-26, all member kinds at all positions, nestings, derived structs incl. member-generic ones) x presence patterns. Assumes parametricity of the generic tuple impls.",
     "C07": "Proof: the accessor add_batch computes is exactly controller data + inner declarations; conflicts lift; Level/BodyOK compose so that isolation, order and exactly-once hold for dispatchers with batches nested to any depth, for the tagged builder the driver runs. Tied by batch-heavy layouts and traces. PARTIAL for KF1 inputs.",
-    "C08": "Proof: the borrow invariant (free / n shared guards / one exclusive guard) is preserved by every operation over every legal history; outcome_spec, panic_frame, drop_exact. Tied by random histories with a probe of every cell after every operation. PARTIAL: the many-thread clause assumes atomicity of AtomicRefCell (stress run with shadow counters only).",
-    "C09": "Proof: refinement of the world to a map ResId -> token (every operation commutes with the abstraction and answers what the map answers), type-tag invariant, mismatch panics leave the world unchanged, value accounting (each token in exactly one of world / returned / dropped). Tied by random histories incl. mismatching type arguments with drop counters.",
+    "C08": "Proof: the borrow invariant (free / n shared guards / one exclusive guard) is preserved by every operation over every legal history; outcome_spec, panic_frame, drop_exact; scope_frame: a closure under catch_unwind that takes guards of any kind (typed, by-id, tuple fields, meta-iterator items, clones) and returns, panics, or is refused a fetch after partial acquisition gives back exactly what it took (unwinding = return); entry / exec callers that panic holding the guard. Tied by random histories incl. such closures (also while outer guards on the same resources are alive) with a probe of every cell - state and exact shared count - after every operation; threads that panic while holding guards in the many-thread part. PARTIAL: the many-thread clause assumes atomicity of AtomicRefCell (stress run with shadow counters only).",
+    "C09": "Proof: refinement of the world to a map ResId -> token (every operation commutes with the abstraction and answers what the map answers), type-tag invariant, mismatch panics leave the world unchanged, value accounting (each token in exactly one of world / returned / dropped) - also when the Drop of a value panics where the world drops it (insert replacing: the new value is in place first; or_insert on an occupied slot; the caller dropping a removed value; the world's own drop, which may leak but never drops twice) and when or_insert_with's closure or the caller holding the entry guard panics. Tied by random histories incl. mismatching type arguments with drop counters and a one-shot panicking Drop armed at each of those places, the accounting checked from the drop log before any stored value is looked at again.",
     "C10": "Proof: every stage the code's insertion_target skips is justified by a conflicting earlier system or a dependency at/behind it (on the five tables of the code, for every registration sequence, after repair D3); compatible dependency-free systems share one stage; max_threads is the widest stage. Tied by exact layout comparison and max_threads().",
     "C11": "Proof about a pool MODEL (assumption about rayon): with >= n idle workers n rendezvous systems always meet and never deadlock; with fewer they do deadlock (the executable prediction is exact); plus a model of builder.rs's pool slots: which pool every dispatcher (top level, batch, nested batch) runs on - the default pool has rayon's default size whatever dispatcher created it, a supplied pool serves the top level and its batches. PARTIAL by nature: the tie is the complete enumeration of widths 2-16 x pool sizes x {user pool, default pool, batch-inner, async, foreign caller} and generated plans x configurations (hints, group sizes, multi-stage, nested batches, default pool sized by the harness in child processes, pools given early / late / to batch builders, build / build_async) with real rendezvous runs on the stages of the implementation's own plan, which must equal the model's plan.",
     "C12": "Proof: thread-local systems start after all staged systems, run in registration order, are assigned the caller's thread by the thread table the driver compares every event with; sendable iff no thread-local systems; KF1 is proved as a witness (C12_kf1_witness). Tied by traces with thread kinds, try_into_sendable, compile probes (Dispatcher !Send), the async dispatcher's wait. PARTIAL: open finding KF1.",
